@@ -235,6 +235,8 @@ def loop_heads(toks, lo, hi):
 MACRO_RULES = {
     'panic': ('R2', 'verif_panic()'),
     'format': ('R4', 'verif_format()'),
+    # R16: print!(..) in a heap function is one output event on the ghost heap (what is printed is not modelled)
+    'print': ('R16', 'verif_print(Tracked(heap))'),
 }
 MACRO_FN = {
     'str_to_chars': 'R5',
@@ -272,6 +274,9 @@ EXPR_WRAPPERS = {
     ('solution_node.rs::next_solution', 'body == Goal::Nil'): 'goal_is_nil(&body)',
     # Vec index + derived Clone of Goal: panics on a not(..) / time(..) without operand (the parsers do not build one); a panic is no return
     ('goal.rs::make_solution_node', 'goals[0].clone()'): 'first_goal_clone(goals)',
+    # Vec index: panics when `=` has fewer than two operands (the parsers build two); a panic is no return
+    ('built_in_predicates.rs::next_solution_bip', '&terms[0]'): 'vec_at(terms, 0)',
+    ('built_in_predicates.rs::next_solution_bip', '&terms[1]'): 'vec_at(terms, 1)',
     ('rule_reader.rs::read_facts_and_rules', 'line_reader(file_name)'): 'verif_line_reader(file_name)',
     ('rule_reader.rs::read_facts_and_rules', 'long_line += &line;'): 'str_append_line(&mut long_line, &line);',
 }
@@ -466,6 +471,12 @@ class FnEmitter:
                             continue
                         if t.text in MACRO_RULES:
                             rule, rep = MACRO_RULES[t.text]
+                            if t.text == 'print' and fname not in self.heap_fns:
+                                raise Undecided('unsupported construct: print! outside a heap function in %s' % key)
+                            if t.text == 'panic' and con.opts.get('panics') == 'diverge':
+                                # contract option `[opt panics = diverge]`: the function's claims are about calls that return;
+                                # a panic! is a call that does not (reported in the evidence as R2d)
+                                rule, rep = 'R2d', 'verif_diverge()'
                             edits.append((t.start, toks[cl].end, rep, None))
                             self.counts[rule] = self.counts.get(rule, 0) + 1
                             k = cl + 1
@@ -749,6 +760,17 @@ class FnEmitter:
                                 raise Undecided('unsupported construct: method call with arguments on the RefMut %s in %s' % (t.text, key))
                             edits.append((t.start, toks[cl].end, 'nd_call_%s(&%s, Tracked(heap))' % (F, N), None))
                             self.counts['R15'] = self.counts.get('R15', 0) + 1
+                            # contract sections [before heap-method F] / [after heap-method F] around the statement `R.F();`
+                            bm = block_text('before heap-method %s' % F)
+                            am = block_text('after heap-method %s' % F)
+                            nxm = next_sig(toks, cl)
+                            if (bm or am) and stmt_start and toks[nxm].kind == 'p' and toks[nxm].text == ';':
+                                if bm:
+                                    edits.append((t.start, t.start, ('', bm, '\n'), 'block'))
+                                if am:
+                                    edits.append((toks[nxm].end, toks[nxm].end, ('\n', am, ''), 'block2'))
+                            elif bm or am:
+                                raise Undecided('unsupported construct: %s.%s() in %s is not a statement of its own' % (t.text, F, key))
                             k = cl
                         else:
                             # R15e
